@@ -860,3 +860,148 @@ def render(cs, g):
     L.append("/- not certified (the source idiom matched, the IR does not bear it out): %s -/" % ("; ".join("%s: %s" % u for u in cs.uncertified) or "none").replace("-/", "- /"))
     L.append("\nend JanetModel.Gen.DepthGuard\n")
     return "\n".join(L)
+
+
+# ------------------------------------------------------------------------------------------------- counter balance on the IR
+# For a guard whose counter is a MEMORY location changed by +-1 stores, every block gets its net number of charges
+# (`delta`) and an UNTRUSTED label `level` = charges outstanding when the block is entered.  Lean (`balOK`) checks that the
+# labels are consistent along EVERY CFG edge between live blocks (so the level at a block does not depend on the path -
+# loops included), 0 at the entry, never negative, 0 again at every `ret`, and >= 1 at every recursive call.
+# `bal_path_level` (proved once): on every live path from the entry the level at its end is the sum of the deltas on it;
+# so every complete path through the function releases exactly what it charged (seeded C19-4 has no consistent labelling).
+
+def balance_cert(fn, cert, loc, targets_calls, nonret, by_sig, callees):
+    """-> (dict, None) or (None, reason)"""
+    countdown = cert["pred"] in ("eq", "sle", "slt", "ule", "ult", "ne") and cert["k"] <= 1
+    sign = -1 if countdown else 1            # a charge is a store of load-1 (count-down) / load+1 (count-up)
+    stops = stop_blocks(fn, nonret)
+    saved = {}                               # alloca that holds a copy of the counter -> level when the copy was taken
+    restores = []
+
+    def walk(k, lv):
+        """level after block k entered at level lv, lowest level at a recursive call in it (or None)"""
+        low = None
+        for t in fn.blocks[k][1]:
+            if t.startswith("store "):
+                st = store_target(fn, t)
+                if st:
+                    dst = trace_loc_addr(fn, st[1])
+                    if dst == loc:
+                        v = trace(fn, st[0])
+                        if v[0] == "add" and abs(v[1]) == 1 and _strip_add(v) == loc:
+                            lv += sign * v[1]
+                        else:
+                            # `counter = saved copy`: back to the level at which the copy was taken
+                            src = fn.defs.get(st[0], "")
+                            m = re.match(r"load [^,]+, [^,]*\* (%[\w.$-]+)", src)
+                            if m and m.group(1) in saved:
+                                lv = saved[m.group(1)]
+                                restores.append(k)
+                            else:
+                                raise ExtractError("store to the counter that is neither +-1 nor a saved copy: block %d `%s`" % (k, t[:70]))
+                    elif dst[0] == "local" and fn.defs.get(dst[1], "").startswith("alloca "):
+                        v = trace(fn, st[0])
+                        # `int32_t oldn = janet_vm.stackn++`: the copy is the value BEFORE the increment in the same statement
+                        if v == loc:
+                            saved[dst[1]] = lv - (sign if _stored_after_charge(fn, k, t, loc) else 0)
+            c = calls_in(fn, t)
+            if c:
+                tg = [c[1]] if c[0] == "direct" else by_sig.get(c[1], [])
+                if any(x in callees for x in tg):
+                    low = lv if low is None else min(low, lv)
+        return lv, low
+
+    level, out_level, calllev, todo = {0: 0}, {}, {}, [0]
+    order = []
+    conflict = None
+    try:
+        while todo:
+            a = todo.pop(0)
+            order.append(a)
+            out_level[a], low = walk(a, level[a])
+            if low is not None:
+                calllev[a] = low
+            if a in stops:
+                continue
+            for b in fn.succ[a]:
+                if b not in level:
+                    level[b] = out_level[a]
+                    todo.append(b)
+    except ExtractError as e:
+        return None, str(e)
+    n = len(fn.blocks)
+    retb = set(k for k, t in fn.term.items() if t.startswith("ret"))
+    # a pure return block may be entered with charges still outstanding (early error returns): its level is the LOWEST
+    for b in retb:
+        ins = [out_level[a] for a in level if a not in stops and b in fn.succ[a]]
+        if b in level and ins:
+            level[b] = min(ins)
+            out_level[b] = level[b] + (out_level[b] - level[b]) if False else walk(b, level[b])[0]
+    delta = {k: (out_level[k] - level[k]) if k in level else 0 for k in range(n)}
+    return dict(fn=fn.name, counter=cert["counter"], n=n, cfg=cfg_edges(fn),
+                level=[level.get(k, 0) for k in range(n)], delta=[delta[k] for k in range(n)],
+                live=sum(1 << k for k in level), stops=sum(1 << k for k in stops if k in level),
+                rets=sorted(k for k in retb if k in level and k not in stops),
+                calls=sorted((k, v) for k, v in calllev.items()), restores=sorted(set(restores))), None
+
+
+def _stored_after_charge(fn, k, store_text, loc):
+    """in `oldn = counter++` clang stores the incremented value to the counter BEFORE it stores the old value to oldn:
+    is there a +-1 store to `loc` earlier in block k than `store_text`, using the same load?"""
+    st0 = store_target(fn, store_text)
+    for t in fn.blocks[k][1]:
+        if t == store_text:
+            return False
+        if t.startswith("store "):
+            st = store_target(fn, t)
+            if st and trace_loc_addr(fn, st[1]) == loc:
+                v = fn.defs.get(st[0], "")
+                if st0 and st0[0] in v:            # add nsw i32 %old, 1   with %old the value saved
+                    return True
+    return False
+
+
+def balance_certs(build, g, cs):
+    """one balance certificate per certified guard with a +-1 memory counter -> (list, [(fn, why not)])"""
+    irp = cgm.emit_ir(build)
+    fl, globals_, types = split_functions(irp)
+    by_sig = {}
+    for nm in g.ir.addr_taken:
+        by_sig.setdefault(g.ir.funcs[nm]["sig"], []).append(nm)
+    succ_of = {}
+    for (a, b) in g.edges:
+        succ_of.setdefault(a, set()).add(b)
+    nonret = set(cs.noreturn)
+    out, skipped = [], []
+    for c in cs.certs:
+        if c["kind"] != "counter" or c["counter"].startswith("param") or not c["charge"].startswith("store"):
+            continue
+        fn = parse_function(c["fn"], fl[c["fn"]])
+        cands = find_checks(fn, _is_loc)
+        locs = [x["loc"] for x in cands if loc_str(x["loc"]) == c["counter"]]
+        if not locs:
+            skipped.append((c["fn"], "counter location not found again"))
+            continue
+        scc = set(g.comps[g.comp_of[c["fn"]]])
+        callees = set(b for b in succ_of.get(c["fn"], ()) if b in scc)
+        b, why = balance_cert(fn, c, locs[0], None, nonret, by_sig, callees)
+        if b is None:
+            skipped.append((c["fn"], why))
+        else:
+            out.append(b)
+    return out, skipped
+
+
+def render_balance(bals):
+    L = ["import JanetModel.Depth.GuardCert",
+         lean_header("tools/gen/cgguard.py; net charges of the depth counter per basic block of the guard functions (-O0 LLVM IR)"),
+         "namespace JanetModel.Gen.DepthBalance\n",
+         "/-- per guard with a +-1 memory counter: CFG, net charges per block, UNTRUSTED level per block, live blocks, returns, recursive calls with the level there -/",
+         "def certs : List JanetModel.Depth.BalCert := ["]
+    L.append(",\n".join(
+        '  { fn := "%s", counter := "%s", n := %d,\n    cfg := [%s],\n    level := [%s],\n    delta := [%s],\n    live := %d, stops := %d, rets := [%s], calls := [%s] }'
+        % (b["fn"], b["counter"], b["n"], ", ".join("(%d, %d)" % e for e in b["cfg"]), ", ".join(str(x) for x in b["level"]),
+           ", ".join(str(x) for x in b["delta"]), b["live"], b["stops"], ", ".join(str(x) for x in b["rets"]),
+           ", ".join("(%d, %d)" % x for x in b["calls"])) for b in bals))
+    L.append("]\n\nend JanetModel.Gen.DepthBalance\n")
+    return "\n".join(L)
